@@ -284,6 +284,15 @@ def s5b(ctx, rep, clause="S5"):
         require_guard(ctx, rep, clause, g, f"Tuner._schedule_new_task: backend.{meth} | spawn_new_trial_id is {truth}", nodes,
                       [(f"{'' if truth else 'not '}{flag}", lambda a, t=truth: a[0] == "truth" and a[1] == flag and a[2] is t)],
                       "a suggestion to resume a paused trial starts a new trial instead (or a new configuration is run by resuming an old trial)")
+    pc = P.method("SimulatorBackend", "_process_complete_event")
+    cpc = cfg_of(pc)
+    stw = [n for n in cpc.nodes if n.kind == "stmt" and isinstance(n.ast, ast.Assign) and any(isinstance(t, ast.Attribute) and t.attr == "status" for t in n.ast.targets)]
+    from .common import dom_guard
+    extra = [a for n in stw for a in dom_guard(ctx, pc, n.id) if a[0] != "isinstance"]
+    rep.put(bool(stw) and not extra, clause, "guarded_by", "SimulatorBackend._process_complete_event: the status carried by the event is written whatever it is", pc,
+            stw[0].ast if stw else None, "", f"the status of the completion event is written only under {sorted(map(str, extra))}: pause_trial and the "
+            "job's own completion both write this field, and whichever event is processed last must win - otherwise a paused trial is left "
+            "'completed' (or a completed one 'in progress') and the tuner resumes a trial that is not paused")
     h = P.method("TrialBackend", "stop_all")
     nodes = [n for n, c in call_nodes(ctx, h, lambda c: fn_name(c) == "stop_trial")]
     require_guard(ctx, rep, clause, h, "TrialBackend.stop_all: stop_trial | the trial is in progress", nodes,
